@@ -127,12 +127,37 @@ struct Case {
     h: Vec<usize>,
 }
 
+/// the common alphabet plus, for every partial entry point that takes a buffer, one window whose width is
+/// not a multiple of 8 with a buffer of floor(width / 8) * height bytes (the size the drivers document and
+/// assert): a driver that rounds the width up reads beyond the lent slice. The windows are only used here,
+/// where memory accesses are judged, not addressing.
+fn syms12(spec: &'static Spec) -> Vec<Sym> {
+    let mut v = syms(spec);
+    for pe in spec.partial {
+        if pe.is_fill || pe.two_planes {
+            continue;
+        }
+        for w in [Win::new(8, 8, 12, 4), Win::new(0, 0, 20, 3)] {
+            let mut s: Sym = Vec::new();
+            if spec.name == "epd2in9b_v4" {
+                continue;
+            }
+            if let Some(k) = pe.after {
+                s.push(Op::win(k, w, Img::Coded { salt: 0x12A, len: w.bytes() }));
+            }
+            s.push(Op::win(pe.k, w, Img::Coded { salt: 0x12B, len: w.bytes() }));
+            v.push(s);
+        }
+    }
+    v
+}
+
 pub fn run(ctx: &Ctx) -> Report {
     let mut cases = Vec::new();
     let mut rng = Rng::derive(ctx.seed, 0xC12);
     let twin_b_only = ctx.mode == "twin-b";
     for spec in panels_for(ctx) {
-        let syms = syms(spec);
+        let syms = syms12(spec);
         let small = matches!(spec.name, "epd1in02" | "epd1in54c" | "epd2in13bc" | "epd2in9d");
         if ctx.mode == "miri" && !small {
             continue;
@@ -206,7 +231,7 @@ pub fn run(ctx: &Ctx) -> Report {
         let threads = if ctx.mode == "miri" { 1 } else { ctx.threads };
         return par_run(&cases, threads, |_, c, rep| {
             let spec = c.spec;
-            let syms = syms(spec);
+            let syms = syms12(spec);
             let ops = flatten(&syms, &c.h);
             rep.eval(spec.name);
             match run_hist(spec, &ops, true) {
@@ -230,7 +255,7 @@ pub fn run(ctx: &Ctx) -> Report {
     }
     let mut out = par_run(&cases, ctx.threads, |_, c, rep| {
         let spec = c.spec;
-        let syms = syms(spec);
+        let syms = syms12(spec);
         let ops = flatten(&syms, &c.h);
         rep.eval(spec.name);
         if let Ok(Some((lender, _cur, detail))) = scan_retention(spec, &ops, Some(rep)) {
